@@ -230,7 +230,9 @@ def check_template(tpl):
 
                 creal = _regex.compile(regex_text)
             if "SA" in lem:
-                v, w = q.check(inter(WF0, z3.Concat(inter(comp(z3.Concat(WF0, z3.Star(HEX0))), CTX0), L0mid)))
+                has_lb = bool(rx.split_leading_lookbehind(east)[0])
+                pre_sa = comp(z3.Concat(WF0, z3.Star(HEX0)))
+                v, w = q.check(inter(WF0, z3.Concat(inter(pre_sa, CTX0) if has_lb else pre_sa, L0mid)))
                 if v == "sat":
                     stream, _ = U.decode(w)[0], None
                     bad = None
@@ -242,7 +244,8 @@ def check_template(tpl):
                 else:
                     obligation("SA", "-", v, w if v == "unknown" else None)
             if "HX" in lem:
-                v, w = q.check(inter(WF0, z3.Concat(inter(z3.Plus(HEX0), CTX0), L0mid), comp(L0)))
+                has_lb = bool(rx.split_leading_lookbehind(east)[0])
+                v, w = q.check(inter(WF0, z3.Concat(inter(z3.Plus(HEX0), CTX0) if has_lb else z3.Plus(HEX0), L0mid), comp(L0)))
                 if v == "sat":
                     stream = U.decode(w)[0]
                     bad = None
@@ -269,6 +272,16 @@ def check_template(tpl):
                             obligation("E2E", "member", "ok" if got is True else "MISMATCH", stream=s)
                     except Exception as e:
                         obligation("E2E", "member", "MISMATCH", stream=s, detail=f"{type(e).__name__}: {e}")
+                    # end to end, negative: perturb the witness (swap the case of every letter of mnemonics/operands);
+                    # if the compiled regex, applied directly, no longer matches anywhere, the pipeline must say not found
+                    try:
+                        L2 = [(a, m_.swapcase(), [o.swapcase() for o in ops]) for a, m_, ops in jasmapi.decode_stream(s)]
+                        s2 = jasmapi.encode_stream(L2)
+                        if s2 != s and creal.search(s2) is None:
+                            found2, hits2, _ = jasmapi.run_consumer(regex_text, L2, all_matches=False)
+                            obligation("E2EN", "perturbed", "ok" if not found2 else "MISMATCH", stream=s2)
+                    except Exception as e:
+                        obligation("E2EN", "perturbed", "MISMATCH", stream=s, detail=f"{type(e).__name__}: {e}")
                 else:
                     obligation("VAL", "member", "EMPTY-LANGUAGE" if v == "unsat" else v)
                 v, w = q.check(inter(WF0, z3.Concat(sU.REC((0,)), U.ANY), comp(L0)))
@@ -332,6 +345,12 @@ def run_templates(run, templates, procs=16):
             elif lemma == "TWIN":
                 if v != "refuted":
                     run.harness_error(f"template {r['id']}: wrong-spec twin was not distinguished (vacuous encoding?)")
+            elif lemma == "E2EN":
+                if v == "MISMATCH":
+                    run.count("disagreements_replayed")
+                    run.failure(f"{r['feature']}/E2EN/-", f"template={r['id']}: the compiled regex does not match the stream {o.get('stream')!r} anywhere, but the consumer reports a match (the rule is not applied as compiled)", {"kind": "e2en", "template": tpl, "regex": r["regex"], "stream": o.get("stream")})
+                else:
+                    run.count("traces_validated_end_to_end")
             elif lemma == "XCHECK":
                 if v.startswith("disagree"):
                     run.harness_error(f"template {r['id']}: second solver (z3 4.8.12) {v} on AEM {o['dir']}")
